@@ -168,6 +168,99 @@ def field_suite(res, rng, tier):
         res.violations.append(dict(case=repr(b), observed=b["got"], what="field on_error: expected %s" % b["want"]))
 
 
+def removal_case(i_seed):
+    """class-level invalid_values='exclude': the outcome is that of the throwing class on the input with the offending fields'
+    keys removed (so a dependency on an excluded field is a missing dependency, a required excluded field is an absence)"""
+    import re as _re
+    from . import fieldgen
+    from utype.utils import exceptions as exc
+    warnings.simplefilter("ignore")
+    rng = random.Random(i_seed)
+    for _ in range(20):
+        name, src, fields, okw = fieldgen.rand_class(rng, theme="deps-exclude")
+        if "preserve" in src:
+            continue
+        okw = {k: v for k, v in okw.items() if k not in ("invalid_values", "collect_errors", "max_errors", "ignore_required", "force_default", "no_default", "defer_default", "max_params", "min_params")}
+        lines = [l for l in src.rstrip("\n").split("\n") if "__options__" not in l]
+        lines = [_re.sub(r",? ?on_error='\w+'", "", l).replace("Field(, ", "Field(") for l in lines]
+        names = []
+        try:
+            for pol in ("throw", "exclude"):
+                n2 = dyn.fresh("Rm")
+                ls = list(lines)
+                ls[0] = _re.sub(r"class \w+\(", "class %s(" % n2, ls[0], 1)
+                ls.insert(1, "    __options__ = Options(%s)" % ", ".join("%s=%r" % kv for kv in dict(okw, invalid_values=pol).items()))
+                dyn.declare("\n".join(ls) + "\n")
+                names.append(n2)
+        except Exception:
+            continue
+        break
+    else:
+        return None
+    data = fieldgen.rand_input(rng, fields)
+
+    def run(nm, d):
+        try:
+            r = dyn.get(nm).__from__(d)
+            return ("ok", dict(r) if isinstance(r, dict) else {k: v for k, v in r.__dict__.items() if not k.startswith("__")})
+        except exc.ParseError as e:
+            return ("parse", getattr(e, "item", None), type(e).__name__)
+        except Exception as e:
+            return ("other", type(e).__name__)
+    P = dyn.get(names[0]).__parser__
+    seen_f = []
+    for k in data:
+        f = P.get_field(str(k))
+        if f is not None:
+            if any(f is g for g in seen_f):
+                return None          # two keys of one field: conflict handling is another matter
+            seen_f.append(f)
+    got = run(names[1], data)
+    cur = dict(data)
+    want = None
+    for _ in range(8):
+        w = run(names[0], cur)
+        if w[0] != "parse" or w[2] in ("AbsenceError", "DependenciesAbsenceError", "ExceedError", "AliasConflictError", "TooManyParamsError", "TooFewParamsError"):
+            want = w
+            break
+        f = P.get_field(str(w[1])) if w[1] is not None else None
+        if f is None:
+            want = w
+            break
+        removed = [k for k in list(cur) if P.get_field(str(k)) is f]
+        if not removed:
+            want = w
+            break
+        from utype.utils.datastructures import unprovided as _unp
+        if not _unp(f.get_default(P.options, defer=None)):
+            return None      # an excluded field with a default takes its default and counts as given: not a plain removal
+
+        for k in removed:
+            cur.pop(k)
+    if want is None:
+        return None
+    if got[0] != want[0] or (got[0] == "ok" and repr(got[1]) != repr(want[1])):
+        return "%s\nOptions(%r), input %r: excluding gives %r; the throwing class on the input without the offending fields (%r) gives %r" % (
+            "\n".join(lines), okw, data, got, cur, want)
+    return ("ok", got[0])
+
+
+def removal_suite(res, tier, seed):
+    n = 2500 if tier == "quick" else 40000
+    outs = core.pool_map(removal_case, [seed * 1000213 + i for i in range(n)])
+    bad = [o for o in outs if isinstance(o, str)]
+    agg = {}
+    for o in outs:
+        if isinstance(o, tuple):
+            agg[o[1]] = agg.get(o[1], 0) + 1
+    res.add_suite("exclude-is-removal", n, n, ["seeded: fieldgen classes (dependencies, optional / required fields, defaults, aliases, both lookup strategies)"],
+                  "a class declared with invalid_values='throw' and 'exclude': the excluding class's outcome must be that of the throwing "
+                  "class on the input with the keys of the offending fields removed one after the other (dependencies on an excluded "
+                  "field then count as missing, a required excluded field as absent)", dict(failures=len(bad), outcomes=agg))
+    for o in bad[:3]:
+        res.violations.append(dict(case=repr(dict(kind="exclude-is-removal")), observed=o, what=o))
+
+
 def varargs_case(i_seed):
     """*args: T follow invalid_items, **kwargs: T and typed additions of a class follow invalid_values, each offending element
     alone: every combination of the two policies"""
@@ -277,6 +370,7 @@ def main(tier, seed):
         res.violations.append(dict(case=repr(c), observed=o, what=o))
     field_suite(res, rng, tier)
     varargs_suite(res, tier, seed)
+    removal_suite(res, tier, seed)
     return core.finish(res, "make -C coq Props/C11.vo && coqc (Print Assumptions audit)", "see suites", search=None,
                        level_note="theorems are about the loops of Model/Parse.v (tied by the policies suite); C11_exclude_is_filter assumes "
                                   "element conversions independent of the policy (element types that are not containers with offending "
